@@ -1296,7 +1296,7 @@ FACETS = {
         "min_nontrivial": 100,
     },
     "gates": {
-        "kind": "enumeration", "items": small_gate_items, "check": check_gate,
+        "kind": "enumeration", "group_key": (lambda it: (it.get("sys"), it.get("name"))), "items": small_gate_items, "check": check_gate,
         "budget": {"quick": {"examples": 0, "shards": 6}, "thorough": {"examples": 0, "shards": 6}},
         "nontrivial": "non-identity gate that is multi-system, non-diagonal or a qutrit rotation",
         "min_nontrivial": 60,
@@ -1315,7 +1315,7 @@ FACETS = {
         "min_nontrivial": 100,
     },
     "lindbladians": {
-        "kind": "enumeration", "items": lindbladian_items, "check": check_lindbladian,
+        "kind": "enumeration", "group_key": (lambda it: (it.get("sys"), it.get("name"))), "items": lindbladian_items, "check": check_lindbladian,
         "exhaustive": False,  # small gates completely, 2-qutrit names sampled in both tiers
         "budget": {"quick": {"examples": 0, "shards": 6}, "thorough": {"examples": 0, "shards": 16}},
         "nontrivial": "non-identity gate name (non-zero Hamiltonian)",
@@ -1346,7 +1346,7 @@ FACETS = {
         "min_nontrivial": 50,
     },
     "truth_table": {
-        "kind": "enumeration", "items": truth_items, "check": check_truth,
+        "kind": "enumeration", "group_key": (lambda it: (it.get("sys"), it.get("name"))), "items": truth_items, "check": check_truth,
         "budget": {"quick": {"examples": 0, "shards": 3}, "thorough": {"examples": 0, "shards": 3}},
         "nontrivial": "the gate moves the input state to a different named state",
         "min_nontrivial": 70,
